@@ -107,18 +107,12 @@ fn c06b_lzma_new_any_params() {
 
 // C05-A: LZMA1 stream decoder over a source that ends inside the range coder payload: the read call during which the
 // source reported end-of-input must fail (it must not hand out bytes decoded from substituted zeros).
-//@ {"name":"c05a_lzma1_truncated_payload","props":["C05"],"tier":"thorough","obligation":"C05-A","timeout":7200,"mem_gb":9,"functions":["lzma_reader::LZMAReader::new","lzma_reader::LZMAReader::read_decode","decoder::LZMADecoder::decode","decoder::LiteralDecoder::decode","range_dec::RangeDecoder::decode_bit","range_dec::RangeDecoder::normalize","range_dec::RangeReader::read_u8 (impl for T: Read)"],"bounds":"lc=lp=pb=0, dictionary 4096, unknown size (end marker expected); source = 5 init bytes (code 0, concrete: the first symbol is a literal) + 0..=1 further arbitrary bytes then end; one read call of 1 byte; unwind 12","assumes":["fresh probabilities (stub equals the real constructor, checked natively)"]}
-#[kani::proof]
-#[kani::unwind(12)]
-#[kani::stub(crate::decoder::LZMADecoder::new, crate::decoder::verif_stubs_dec::verif_fresh_decoder)]
-fn c05a_lzma1_truncated_payload() {
-    // The four code bytes are concrete (0): with a symbolic code CBMC walks every symbol kind (match, rep, direct
-    // bits ...) although only the literal path is feasible (> 25 min).  What stays symbolic is the byte the first
-    // normalisation pulls in - or its absence - and that is exactly what the obligation is about.
+fn lzma1_truncated_payload(len: usize) {
+    // Everything that decides a code path is concrete: the four code bytes (0: the first symbol is a literal) and the
+    // source length.  (A symbolic length makes `new_stream`'s EOF test symbolic, the merged code value symbolic, and
+    // CBMC then walks every symbol kind: > 30 min instead of 10 s.)  Symbolic: the byte the first normalisation pulls in.
     let mut b: [u8; 6] = kani::any();
     b[0] = 0; b[1] = 0; b[2] = 0; b[3] = 0; b[4] = 0;
-    let len: usize = kani::any();
-    kani::assume(len == 5 || len == 6);
     let mut src = Src::<6>::new(b, len);
     let rd = LZMAReader::new(&mut src, u64::MAX, 0, 0, 0, 4096, None);
     assert!(rd.is_ok());
@@ -128,32 +122,21 @@ fn c05a_lzma1_truncated_payload() {
     let hits = rd.rc.verif_inner().eof_hits;
     if hits > 0 {
         assert!(r.is_err(), "C05-A: source ended inside the LZMA payload but read() reported success");
+    } else {
+        assert!(matches!(r, Ok(1)), "a literal from a complete prefix must be delivered");
     }
-    kani::cover!(hits > 0, "source ended during the call");
-    kani::cover!(hits == 0 && r.is_ok(), "call completed from available bytes");
+    kani::cover!(true, "end reached");
     core::mem::forget(rd);
 }
 
-// C06-C2: a read() that failed with a distance error leaves the coder in a match state whose rep0 was never validated;
-// a FURTHER read() on the same reader must return (Ok or Err) - it must not panic while decoding the next symbol.
-//@ {"name":"c06c2_lzma1_read_after_distance_error","props":["C06"],"tier":"thorough","obligation":"C06-C2","timeout":5400,"mem_gb":13,"functions":["lzma_reader::LZMAReader::read","decoder::LZMADecoder::decode","decoder::LZMADecoder::decode_match","decoder::LiteralDecoder::decode","lz::lz_decoder::LZDecoder::get_byte","lz::lz_decoder::LZDecoder::repeat"],"bounds":"lc=lp=pb=0, dict 4096, empty dictionary, fresh probabilities; 12 arbitrary compressed bytes whose first symbol is a match (code >= 2^31), which must fail because the dictionary is empty; then a second 1-byte read on the same reader; unwind 30","assumes":["first read returned Err (a match into an empty dictionary always does)"],"stubs":["LZMADecoder::new -> verif_fresh_decoder"]}
+//@ {"name":"c05a_lzma1_truncated_payload","props":["C05"],"obligation":"C05-A","timeout":900,"mem_gb":9,"functions":["lzma_reader::LZMAReader::new","lzma_reader::LZMAReader::read_decode","decoder::LZMADecoder::decode","decoder::LiteralDecoder::decode","range_dec::RangeDecoder::decode_bit","range_dec::RangeDecoder::normalize","range_dec::RangeReader::read_u8 (impl for T: Read)"],"bounds":"lc=lp=pb=0, dictionary 4096, unknown size; source = exactly the 5 range-coder init bytes (code 0) and then end of input: the first literal needs one more byte; one 1-byte read; unwind 12","assumes":["fresh probabilities (stub equals the real constructor, checked natively)"]}
 #[kani::proof]
-#[kani::unwind(30)]
+#[kani::unwind(12)]
 #[kani::stub(crate::decoder::LZMADecoder::new, crate::decoder::verif_stubs_dec::verif_fresh_decoder)]
-fn c06c2_lzma1_read_after_distance_error() {
-    let mut b: [u8; 12] = kani::any();
-    b[0] = 0;
-    kani::assume(b[1] >= 0x80); // code >= 2^31 = bound of the first is_match bit: the first symbol is not a literal
-    let mut src = Src::<12>::full(b);
-    let rd = LZMAReader::new(&mut src, u64::MAX, 0, 0, 0, 4096, None);
-    assert!(rd.is_ok());
-    let mut rd = rd.unwrap();
-    let mut out = [0u8; 1];
-    let r1 = rd.read(&mut out);
-    // every non-literal first symbol fails (empty dictionary) except the end marker, which ends the stream
-    kani::assume(r1.is_err());
-    kani::cover!(true, "first read failed with a distance error");
-    let r2 = rd.read(&mut out); // must not panic
-    kani::cover!(r2.is_err(), "second read fails cleanly");
-    core::mem::forget(rd);
-}
+fn c05a_lzma1_truncated_payload() { lzma1_truncated_payload(5); }
+
+//@ {"name":"c05a_lzma1_complete_prefix","props":["C05","C01"],"obligation":"C05-A","timeout":900,"mem_gb":9,"functions":["lzma_reader::LZMAReader::read_decode","decoder::LZMADecoder::decode"],"bounds":"as above with one further arbitrary byte available: the literal is delivered and no end-of-input was hit; unwind 12","assumes":["fresh probabilities"]}
+#[kani::proof]
+#[kani::unwind(12)]
+#[kani::stub(crate::decoder::LZMADecoder::new, crate::decoder::verif_stubs_dec::verif_fresh_decoder)]
+fn c05a_lzma1_complete_prefix() { lzma1_truncated_payload(6); }
